@@ -313,7 +313,13 @@ func (m *bmodel) genOp(W *core.Track, step int) *bop {
 	if len(tas) == 0 { // cannot happen: there is always an initial typed array
 		o.kind = boBufLen
 	}
-	pickTA := func() int { return tas[W.Draw(len(tas))] }
+	pickTA := func() int {
+		i := tas[W.Draw(len(tas))]
+		if m.views[i].length() == 0 && W.Draw(4) != 0 { // prefer non-empty receivers
+			i = tas[W.Draw(len(tas))]
+		}
+		return i
+	}
 	// kinds that need something that may not exist fall back to creating it
 	if (o.kind == boDVGet || o.kind == boDVSet) && len(dvs) == 0 {
 		o.kind = boNewDV
@@ -595,7 +601,9 @@ func (o *bop) ctorSrc() string {
 // render produces the JS expression of the step ("" for host actions).
 func (o *bop) render(m *bmodel) string {
 	V, V2, B := vname(o.v), vname(o.v2), bname(o.b)
-	call := func(recv, meth string, args ...string) string { return recv + "." + meth + "(" + strings.Join(args, ",") + ")" }
+	call := func(recv, meth string, args ...string) string {
+		return recv + "." + meth + "(" + strings.Join(args, ",") + ")"
+	}
 	switch o.kind {
 	case boGet:
 		return fmt.Sprintf("%s[%d]", V, int(o.a[0].f))
